@@ -301,10 +301,10 @@ def coq_show(workdir: pathlib.Path, name: str, header: str, terms: Sequence[str]
 
 def load_findings(prop: str) -> list[dict]:
     path = ROOT / 'known_findings.json'
-    if not path.exists():
-        return []
-    data = json.loads(path.read_text())
-    return [f for f in data.get('findings', []) if f.get('property') == prop]
+    found = json.loads(path.read_text()).get('findings', []) if path.exists() else []
+    for frag in sorted((ROOT / 'findings.d').glob('*.json')):   # fragments awaiting merge into the main file
+        found.append(json.loads(frag.read_text()))
+    return [f for f in found if f.get('property') == prop]
 
 
 # --------------------------------------------------------------------------------------
@@ -321,6 +321,9 @@ class Ctx:
         self.t0 = time.time()
         self.work = BUILD / prop
         self.work.mkdir(parents=True, exist_ok=True)
+        for stale in list(self.work.glob('replay_*.json')) + list(self.work.glob('failures.json')):
+            if '--replay' not in sys.argv:
+                stale.unlink()
         self.broken: list[dict] = []          # proof obligations / correspondences that no longer check
         self.failures: list[dict] = []        # property failures on the implementation (monitor layer)
         self.known_hits: dict[str, dict] = {}  # finding id -> first matching failure
